@@ -66,6 +66,7 @@ def build_world(case):
         argv += ['--pretty-print-output', case['pretty_out']]
     return {'files': files, 'argv': argv, 'cwd': PDIR, 'env': {'HOME': '/sim/home', 'LANG': 'C'},
             'faults': list(case.get('faults', [])), 'step_budget': case.get('step_budget', 3_000_000),
+            'stdout_mode': case.get('stdout_mode', 'block'),
             'dirs': [PDIR + '/out']}
 
 
@@ -196,6 +197,14 @@ def gen_base(rnd):
         case['opts'] += ['-e', str(info['origin'] + rnd.choice([63, 255, 511]))]
         if rnd.random() < 0.5:
             case['opts'] += ['-f', str(rnd.randrange(0, 256))]
+        if rnd.random() < 0.3:
+            case['opts'] += ['-s', str(info['origin'] + rnd.choice([0, 1, 5]))]
+    elif rnd.random() < 0.12:
+        # windows that contain nothing: start beyond the last byte, or end before start (a 0-byte image is written)
+        case['opts'] += rnd.choice([['-s', '3000'], ['-s', '8', '-e', '4'], ['-s', '200', '-e', '100'], ['-s', '65535']])
+    if rnd.random() < 0.25:
+        case['opts'] += ['-v'] * rnd.choice([1, 2, 3])
+    case['stdout_mode'] = rnd.choice(['line', 'block'])
     return case, info
 
 
@@ -231,11 +240,15 @@ def io_fault_variants(case, base_r, rnd):
         elif op == 'stat' and path.endswith('.asm'):
             for k in ('stat_eacces', 'stat_enoent', 'vanish_after_stat'):
                 out.append([{'at': idx, 'kind': k}])
-    nw = base_r['stdout'].count('\n')
-    if nw:
-        out.append([{'kind': 'stdout_epipe', 'k': 1, 'stream': 'stdout'}])
-        if nw > 1:
-            out.append([{'kind': 'stdout_epipe', 'k': 2, 'stream': 'stdout'}])
+    # stdout is block-buffered (as when redirected to a pipe or file): a write reaches the sink at the final flush or
+    # whenever the buffer fills; EPIPE is injected at every such write
+    if case.get('stdout_mode') == 'line':
+        nw = base_r['stdout'].count('\n')
+    else:
+        nw = max(1, len(base_r['stdout']) // 8192 + 1)
+    if base_r['stdout']:
+        for k in range(1, min(nw, 8) + 1):
+            out.append([{'kind': 'stdout_epipe', 'k': k, 'stream': 'stdout'}])
     return out
 
 
@@ -303,6 +316,22 @@ def semantic_variants(case, info, rnd):
         m = rnd.choice(ms)
         cnt = max(len(v) for v in allops[m])
         insert(f'  {m} ' + ', '.join(str(i + 1) for i in range(cnt + 2)), 'E3-no-variant-accepts')
+    # E3 by garbling the brackets of an otherwise valid operand (a dropped '[' , a stray ']' or '}')
+    num_ops = [(m, ops) for m, vs in allops.items() for ops in vs if any(k in ('n8', 'n16', 'm16', 'n12', 'n4') for k in ops)]
+    if num_ops:
+        pg1 = gen.ProgGen(random.Random(rnd.random()), info)
+        for _ in range(2):
+            m, ops = rnd.choice(num_ops)
+            texts = [pg1.operand(k) for k in ops]
+            idx = rnd.choice([i for i, k in enumerate(ops) if k in ('n8', 'n16', 'm16', 'n12', 'n4')])
+            t = texts[idx]
+            if ops[idx] == 'm16':
+                t = rnd.choice([t[1:], t + ']', t[:-1] + '}', t[1:-1] + ']]'])
+            else:
+                lit = str(rnd.randrange(0, 9))
+                t = rnd.choice([lit + ']', lit + '}', '2+]3', lit + ']]', '{' + lit, lit + '[0]'])
+            texts[idx] = t
+            insert(f'  {m} ' + ', '.join(texts), 'E3-garbled-brackets')
     # E4: value the field cannot hold (only for numeric kinds that appear alone, to keep the statement well-formed)
     width = info['width']
     cands = []
